@@ -336,10 +336,10 @@ type recorder struct {
 	round    map[string]int                       // the round each target is in
 	ended    map[string]bool                      // the target client's receive loop has ended (a handler error)
 	active   string
-	subs   map[string][]string // target -> rendered requests received
-	relays map[string][]string // target -> ids sent on the subscriber's stream
-	polls  map[string]int
-	sent   map[*gnmi.SubscribeResponse]*gnmi.SubscribeResponse // message -> pristine copy
+	subs     map[string][]string // target -> rendered requests received
+	relays   map[string][]string // target -> ids sent on the subscriber's stream
+	polls    map[string]int
+	sent     map[*gnmi.SubscribeResponse]*gnmi.SubscribeResponse // message -> pristine copy
 }
 
 func (r *recorder) reset() {
@@ -865,7 +865,7 @@ func monitor(c fw.Case, out []string) []string {
 	var fails []string
 	// stream state as the property sees it
 	var dev map[string][][]devMsg
-	round := 0               // the poll round the stream is in
+	round := 0                 // the poll round the stream is in
 	ended := map[string]bool{} // targets that sent something that is not a SubscribeResponse: their relay is over
 	// what a target sent in a round, as the subscriber must receive it (up to a foreign message)
 	sentIn := func(t string, k int) (ids []string) {
